@@ -113,3 +113,95 @@ HAND = [
     "def f(o, x, y):\n    z = x and (o.a(1) or 5)\n    return z\n",
     "def f(o, x, y):\n    z = o.a(1, o.a(2), x and o.a(3))\n    return z\n",
 ]
+
+
+# --------------------------------------------------------------------------- concrete programs (G5b)
+class CGen:
+    """functions over small integers using comparisons (incl. chains), arithmetic, unary
+    operators, subscripts, attributes and logging calls `ext(k, v)` — run natively by CPython"""
+
+    def __init__(self, rng, size):
+        self.rng = rng
+        self.k = 0
+        self.budget = size
+
+    def call(self, depth):
+        self.k += 1
+        return f"ext({self.k}, {self.expr(depth - 1)})"
+
+    def expr(self, depth):
+        r = self.rng.random()
+        v = self.rng.choice(VARS)
+        if depth <= 0 or r < 0.25:
+            return self.rng.choice([v, v, str(self.rng.randint(0, 3))])
+        if r < 0.40:
+            return f"({self.expr(depth - 1)} {self.rng.choice(['+', '-', '*'])} {self.expr(depth - 1)})"
+        if r < 0.55:
+            ops = self.rng.choice([["<"], [">"], ["=="], ["<", "<"], ["<=", "<"], ["!="]])
+            parts = [self.expr(depth - 1)]
+            for op in ops:
+                parts += [op, self.expr(depth - 1)]
+            return "(" + " ".join(parts) + ")"
+        if r < 0.68:
+            return self.call(depth)
+        if r < 0.74:
+            return f"tab[{self.expr(depth - 1)} % 3]"
+        if r < 0.78:
+            return "box.v"
+        if r < 0.84:
+            return f"(not {self.expr(depth - 1)})"
+        if r < 0.88:
+            return f"(-{self.expr(depth - 1)})"
+        op = self.rng.choice(["and", "or"])
+        return "(" + f" {op} ".join(self.expr(depth - 1) for _ in range(self.rng.choice([2, 2, 3]))) + ")"
+
+    def block(self, depth, in_loop, indent):
+        out = []
+        for _ in range(self.rng.randint(1, 3)):
+            if self.budget <= 0:
+                break
+            out += self.stmt(depth, in_loop, indent)
+        return out or [indent + "pass"]
+
+    def stmt(self, depth, in_loop, indent):
+        self.budget -= 1
+        r = self.rng.random()
+        v = self.rng.choice(VARS)
+        if depth <= 0 or r < 0.4:
+            c = self.rng.random()
+            if c < 0.5:
+                return [f"{indent}{v} = {self.expr(2)}"]
+            if c < 0.62:
+                return [f"{indent}{v} {self.rng.choice(['+=', '-='])} {self.expr(1)}"]
+            if c < 0.72:
+                return [f"{indent}{self.call(2)}"]
+            if c < 0.8 and in_loop:
+                return [indent + self.rng.choice(["break", "continue"])]
+            if c < 0.9:
+                return [f"{indent}return {self.expr(2)}"]
+            return [f"{indent}tab[{self.expr(1)} % 3] = {self.expr(1)}"]
+        if r < 0.68:
+            out = [f"{indent}if {self.expr(2)}:"] + self.block(depth - 1, in_loop, indent + "    ")
+            if self.rng.random() < 0.5:
+                out += [f"{indent}else:"] + self.block(depth - 1, in_loop, indent + "    ")
+            return out
+        if r < 0.84:
+            w = self.rng.choice(VARS)
+            out = [f"{indent}while {w} > 0 and ({self.expr(1)} or True):", f"{indent}    {w} -= 1"] \
+                + self.block(depth - 1, True, indent + "    ")
+            if self.rng.random() < 0.3:
+                out += [f"{indent}else:"] + self.block(depth - 1, in_loop, indent + "    ")
+            return out
+        out = [f"{indent}for {v} in range({self.expr(1)} % 4):"] + self.block(depth - 1, True, indent + "    ")
+        if self.rng.random() < 0.3:
+            out += [f"{indent}else:"] + self.block(depth - 1, in_loop, indent + "    ")
+        return out
+
+
+def gen_concrete(rng, size=8, depth=3):
+    g = CGen(rng, size)
+    body = ["    z = 0", "    tab = [1, 0, 2]"]
+    while g.budget > 0:
+        body += g.stmt(depth, False, "    ")
+    body.append(f"    return {g.expr(2)}")
+    return "def f(x, y, box):\n" + "\n".join(body) + "\n"
